@@ -201,6 +201,10 @@ type propResult struct {
 
 func runProperty(p *Program, id, tier string, seed int, findings []*finding) *propResult {
 	res := &propResult{ev: &evidence{PropertyID: id, Tier: tier, Seed: seed, Level: "proof", Coverage: map[string]interface{}{}}}
+	if id == "C11" {
+		res.ev.Level = "other"
+		res.ev.Coverage["explanation"] = "lock discipline checked function by function (guarded_by / immutable-after-init obligations, critical-section dominance); schedules are not explored, so this is not a proof of the property's quantifier over interleavings"
+	}
 	opts := solveOpts{timeout: 10 * time.Second}
 	if tier == "thorough" {
 		opts.timeout = 60 * time.Second
@@ -222,6 +226,8 @@ func runProperty(p *Program, id, tier string, seed int, findings []*finding) *pr
 	}
 	sort.Strings(stale)
 	vcs := map[string]*VC{}
+	trustedFns := map[string]string{}
+	skipped := map[string]bool{}
 	var order []string
 	work := sortedKeys(roots)
 	var engineErrs []string
@@ -233,6 +239,13 @@ func runProperty(p *Program, id, tier string, seed int, findings []*finding) *pr
 		}
 		f := p.funcs[k]
 		if f == nil {
+			continue
+		}
+		if c := p.contracts.byKey[k]; c != nil && c.Trusted != "" {
+			// a trusted contract is an assumption: nothing is generated for its function
+			trustedFns[k] = c.Trusted
+			vcs[k] = nil
+			skipped[k] = true
 			continue
 		}
 		vc := newVC(p, f)
@@ -417,9 +430,12 @@ func runProperty(p *Program, id, tier string, seed int, findings []*finding) *pr
 		}
 	}
 	for k, vc := range vcs {
-		if vc == nil {
+		if vc == nil && !skipped[k] {
 			unsupported = append(unsupported, k)
 		}
+	}
+	for k, why := range trustedFns {
+		trusted[k+" (trusted contract, assumed): "+why] = true
 	}
 	sort.Strings(unsupported)
 	cov := res.ev.Coverage
